@@ -294,6 +294,21 @@ Theorem C02_glue_dispatch_from_mid_frame :
     gdisp v w = Ok (z, m, w') -> (exists x, m = Some x) /\ atframes v (gr w') (length ms).
 Proof. exact gdisp_mid. Qed.
 
+(* TRANSFER PROGRESS with a kernel that takes what it is offered: a flush whose write accepts all
+   offered bytes empties the finished part of the output ring; a poll whose read moves at least one
+   byte loads at least one byte (a full input ring is enlarged first).  Together with
+   [C02_glue_dispatch_all]: everything completed is eventually handed over. *)
+Theorem C02_glue_flush_all :
+  forall v w ws k z w' n, wh_inv0 v ws -> wh_e ws = gw w ->
+    (Z.of_nat (edone (eq_st (gw w))) <= k)%Z -> gflush w k = Ok (z, w', n) ->
+    n = edone (eq_st (gw w)) /\ edone (eq_st (gw w')) = 0 /\ length (gwire w') = length (gwire w) + n.
+Proof. exact gflush_all. Qed.
+
+Theorem C02_glue_poll_progress :
+  forall v w g k z w' n, grel v w g -> 1 <= k -> gwire w <> [] ->
+    gpoll w k = Ok (z, w', n) -> 1 <= n /\ gwire w' = skipn n (gwire w).
+Proof. exact gpoll_progress. Qed.
+
 (* non-vacuity: three messages flushed and polled completely into a fresh reader, then three dispatches *)
 Example C02_glue_dispatch_all_example :
   match gfold v_zpe_r (gworld_init 0 0 0 0) (mkgsp [] []) []
@@ -398,3 +413,5 @@ Print Assumptions C02_stream_recv_delivers.
 Print Assumptions C02_dispatch_delivers.
 Print Assumptions C02_glue_dispatch_all.
 Print Assumptions C02_glue_dispatch_from_mid_frame.
+Print Assumptions C02_glue_flush_all.
+Print Assumptions C02_glue_poll_progress.
